@@ -579,6 +579,10 @@ func optOutputs(amount massutil.Amount, utxos []*txmgr.Credit) ([]*txmgr.Credit,
 }
 
 func (w *WalletManager) SignHash(pub *btcec.PublicKey, hash, password []byte) (*btcec.Signature, error) {
+	// lock again afterwards, as signWitnessTx does: while the keystore stays
+	// unlocked a later passphrase check zeroes the master key and export /
+	// mnemonic reveal fail with "unable to decrypt" for the right passphrase
+	defer w.ksmgr.ClearPrivKey()
 	return w.ksmgr.SignHash(pub, hash, password)
 }
 
